@@ -38,6 +38,8 @@ Read(n) == /\ LET r == IF n \in DOMAIN cache THEN cache[n] ELSE Fresh(cfg, n, Al
            /\ hist' = Append(hist, [op |-> "read", name |-> n, defs |-> {}])
            /\ UNCHANGED <<cfg, nsrc>>
 Add(s) == /\ nsrc < MaxSources
+          \* a source added before anything was collapsed is just a manager over more sources (ConfigInherit_MC)
+          /\ \E k \in DOMAIN hist : hist[k].op = "read"
           /\ ClearOnAdd \/ \A n \in DOMAIN cache : s[n] = Absent
           /\ cfg' = cfg \cup DefsIn(s, nsrc + 1) /\ nsrc' = nsrc + 1
           /\ cache' = IF ClearOnAdd THEN [n \in {} |-> 0] ELSE cache
